@@ -103,6 +103,7 @@ pub fn probes(prop: &str, _tier: &str) -> Vec<String> {
       "false.status.service_lookup",
       "probe.all_errors_multi",
       "probe.method_id_override",
+      "probe.verify_signature_multi_issuer",
       "cover:c02vec>=40",
     ]);
   } else {
@@ -1096,6 +1097,51 @@ fn validate_credential(w: &mut World, step: usize) {
                 unit_labels.push("status.revoked");
                 ctx::stat("false.status.revoked");
               }
+            }
+          }
+        }
+      }
+    }
+  }
+  // ---- verify_signature against a LIST of trusted issuer documents: the document is chosen by the DID of the
+  // method id, not by position; the outcome must be the one of conditions 1-8 for the document with that DID ----
+  if pre_label != "document_mismatch" && pre_label != "decode" && ctx::chance(1, 4) {
+    let mut docs: Vec<CoreDocument> = Vec::new();
+    for p in 0..w.parties.len() {
+      if w.parties[p].did != sup.did && ctx::choose(2) == 0 {
+        if let Some((_, Ok(d))) = w.ledger.resolve(&w.parties[p].did, 0) {
+          docs.push(d);
+        }
+      }
+    }
+    let pos = ctx::choose(docs.len() + 1);
+    docs.insert(pos, sup.doc.clone());
+    ctx::stat("probe.verify_signature_multi_issuer");
+    let r = ctx::catch(|| validator.verify_signature::<_, Object>(&Jwt::new(delivered.clone()), &docs, &opts.verification_options));
+    match r {
+      Err(p) => ctx::violation("C02", "C02.error_not_crash", "verify_signature/panic", format!("verify_signature panicked: {p}")),
+      Ok(Ok(_)) => {
+        if pre.is_some() {
+          ctx::violation(
+            "C02",
+            "C02.accept_only_if_all_conditions",
+            format!("verify_signature-accepted-despite/{pre_label}/{mv:?}"),
+            format!("verify_signature over {} trusted documents (the matching one at position {pos}) accepted although [{pre_label}] is false", docs.len()),
+          );
+        }
+      }
+      Ok(Err(e)) => {
+        let name: &'static str = (&e).into();
+        match pre {
+          None => ctx::stat("observation.verify_signature_rejected_although_conditions_hold"),
+          Some(want) => {
+            if !mutated && name != want {
+              ctx::violation(
+                "C02",
+                "C02.error_identifies_condition",
+                format!("verify_signature/want={want}/got={name}"),
+                format!("verify_signature over {} documents: first false condition is {pre_label} (expects {want}) but the error is {name}", docs.len()),
+              );
             }
           }
         }
